@@ -53,7 +53,8 @@ class Check:
         self.rule = ''
         self.rng = random.Random(seed)
         self.outdir = os.path.join(VERIF, 'out', prop)
-        shutil.rmtree(self.outdir, ignore_errors=True)
+        if not os.environ.get('VERIF_REPLAY'):      # a replay must not delete the file it replays
+            shutil.rmtree(self.outdir, ignore_errors=True)
         os.makedirs(self.outdir, exist_ok=True)
 
     # ------------------------------------------------------------------ TLC
